@@ -279,6 +279,10 @@ func knobsFor(prop string, faulty bool) knobs {
 			k.cancellers = 25
 			k.pDeadline = 10
 			k.doneOps = 20 // a watcher that is finished keeps its place and its last value in the stack
+			// "or the last view that verified": which views were verified depends
+			// on the verification regime, and on when it is switched on
+			k.pDelay = 12
+			k.enablers = 100
 		}
 	case "C04":
 		k.pSuppress = 30
@@ -344,6 +348,9 @@ func knobsFor(prop string, faulty bool) knobs {
 		k.pInvalid = 35
 		k.watchMin = 0
 		k.registrars = [2]int{0, 2}
+		// the last watcher finishing while the delay is still in force (the
+		// monitor goes away; nobody has asked for verification)
+		k.doneOps = 25
 		if faulty {
 			k.pExpired = 10
 			k.pDeadline = 10
